@@ -1,4 +1,5 @@
 import Netpol.Gen.Procs
+import Netpol.Model.Cache
 /-! K-gen tie, statement level: the definitions of `Netpol/Gen/Procs.lean` are rewritten from the Go sources on every run
 (`tools/goextract/procs.go`: one Lean `do` statement per Go statement). Each theorem below states that the hand-written model
 function *is* that rewriting - so a Go change that swaps two subtractions of `PolicyConnections`, drops a case of the
@@ -160,5 +161,74 @@ theorem getXgressDefaultConns_some (e : Engine) (src dst : KPeer) (isIngress : B
     · cases hc : adminPolicyConns b.ingress src dst true with
       | error err => simp [bind, Except.bind, pure, Except.pure]
       | ok r => cases hr : r.isEmpty <;> simp [bind, Except.bind, pure, Except.pure, hr]
+
+-- ------------------------------------------------------------------------------------------
+-- the rule-walking evaluation of one connection (check_eval.go) and the insertion guards (resources.go)
+open EState
+
+/-- `isAllowedByANPCapturedRes`: (result, passOrNonCaptured) of a captured connection -/
+theorem isAllowedByANPCapturedRes_eq :
+    Gen.Procs.isAllowedByANPCapturedRes .pass = .ok (false, true) ∧ Gen.Procs.isAllowedByANPCapturedRes .allow = .ok (true, false) ∧
+    Gen.Procs.isAllowedByANPCapturedRes .deny = .ok (false, false) ∧ Gen.Procs.isAllowedByANPCapturedRes .notCaptured = .error .badAction := by
+  refine ⟨rfl, rfl, rfl, rfl⟩
+
+/-- `allowedXgressConnection`: admin policies first, NetworkPolicies when they pass, the baseline when nothing captured -/
+theorem allowedXgressConnection_eq (s : EState) (src dst : KPeer) (isIngress : Bool) (proto port : String) :
+    xgress s src dst isIngress proto port =
+      Gen.Procs.allowedXgressConnection (byANPs s.eng src dst isIngress proto port) (byNetpols s.eng src dst isIngress proto port)
+        (byBANP s.eng src dst isIngress proto port) := by
+  unfold xgress Gen.Procs.allowedXgressConnection
+  cases h1 : byANPs s.eng src dst isIngress proto port with
+  | error err => rfl
+  | ok p =>
+    obtain ⟨r, pass⟩ := p
+    cases pass
+    · simp [bind, Except.bind, pure, Except.pure]
+    · cases h2 : byNetpols s.eng src dst isIngress proto port with
+      | error err => simp [bind, Except.bind]
+      | ok q =>
+        obtain ⟨r2, cap⟩ := q
+        cases cap
+        · cases h3 : byBANP s.eng src dst isIngress proto port <;> simp [bind, Except.bind, pure, Except.pure]
+        · simp [bind, Except.bind, pure, Except.pure]
+
+/-- the verdict of the baseline policy's rule walk (`Check{In,E}gressConnAllowed` of a BANP): not captured = allowed -/
+def banpVerdict (r : Except Err RuleRes) : Except Err Bool :=
+  r.bind fun
+    | .notCaptured => .ok true
+    | .allow => .ok true
+    | .deny => .ok false
+    | .pass => .error .badAction
+
+/-- `allowedXgressByBaselineAdminNetpolOrByDefault` without a BANP -/
+theorem byBANP_none (e : Engine) (src dst : KPeer) (isIngress : Bool) (proto port : String) (h : e.banp = none)
+    (a b c d : Except Err Bool) :
+    byBANP e src dst isIngress proto port = Gen.Procs.allowedXgressByBaselineAdminNetpolOrByDefault false isIngress a b c d := by
+  simp [byBANP, h, Gen.Procs.allowedXgressByBaselineAdminNetpolOrByDefault, pure, Except.pure]
+
+/-- `allowedXgressByBaselineAdminNetpolOrByDefault` with a BANP -/
+theorem byBANP_some (e : Engine) (src dst : KPeer) (isIngress : Bool) (proto port : String) (b : BANP) (h : e.banp = some b) :
+    byBANP e src dst isIngress proto port =
+      Gen.Procs.allowedXgressByBaselineAdminNetpolOrByDefault true isIngress (.ok (b.selects dst true)) (.ok (b.selects src false))
+        (banpVerdict (adminCheck b.ingress src dst proto port true)) (banpVerdict (adminCheck b.egress dst dst proto port true)) := by
+  simp only [byBANP, h, Gen.Procs.allowedXgressByBaselineAdminNetpolOrByDefault]
+  cases isIngress
+  · cases hs : b.selects src false
+    · simp [bind, Except.bind, pure, Except.pure]
+    · cases hc : adminCheck b.egress dst dst proto port true with
+      | error err => simp [bind, Except.bind, pure, Except.pure, banpVerdict]
+      | ok r => cases r <;> simp [bind, Except.bind, pure, Except.pure, banpVerdict]
+  · cases hs : b.selects dst true
+    · simp [bind, Except.bind, pure, Except.pure]
+    · cases hc : adminCheck b.ingress src dst proto port true with
+      | error err => simp [bind, Except.bind, pure, Except.pure, banpVerdict]
+      | ok r => cases r <;> simp [bind, Except.bind, pure, Except.pure, banpVerdict]
+
+/-- `insertBaselineAdminNetworkPolicy`: the three refusals in the order of the Go function, then the assignment -/
+theorem insertBaselineAdminNetworkPolicy_eq (e : Engine) (b : BANP) :
+    e.insertBANP b = Gen.Procs.insertBaselineAdminNetworkPolicy e b := by
+  unfold Engine.insertBANP Gen.Procs.insertBaselineAdminNetworkPolicy
+  cases h1 : e.exposure <;> cases h2 : e.banp.isSome <;> cases h3 : (b.name != "default") <;>
+    simp [h1, h2, h3, bind, Except.bind, pure, Except.pure, throw, throwThe, MonadExceptOf.throw] <;> rfl
 
 end Netpol.Tie.Procs
